@@ -82,7 +82,6 @@ def run(ctx):
     ctx.build_go()
     T = ctx.tables()
     req = T['Aa']['Requirements']
-    ctx.regen({'AaTables.lean': tolean.aa_tables(T)})
     ctx.driver_path = ctx.driver()
     broken = ctx.audit(THEOREMS)
     rng = ctx.rng
